@@ -5,6 +5,7 @@ import (
 	"io"
 	"net/http"
 	"net/http/httptest"
+	"net/url"
 	"strings"
 	"sync"
 	"time"
@@ -31,6 +32,7 @@ const originETag = "\"v1\""
 type seenReq struct {
 	method, path, rawQuery, body string
 	header                       http.Header
+	rawPath                      string // the path exactly as it stood in the request line
 }
 
 func suiteProxy(r *rng, n int) {
@@ -38,12 +40,21 @@ func suiteProxy(r *rng, n int) {
 	var mu sync.Mutex
 	var seen []seenReq
 	cacheable := true
+	originAge := "" // the origin is itself a cache: it states the age of what it hands out
 	origin := httptest.NewServer(http.HandlerFunc(func(w http.ResponseWriter, req *http.Request) {
 		b, _ := io.ReadAll(req.Body)
 		mu.Lock()
-		seen = append(seen, seenReq{req.Method, req.URL.Path, req.URL.RawQuery, string(b), req.Header.Clone()})
+		rp := req.RequestURI
+		if i := strings.IndexByte(rp, '?'); i >= 0 {
+			rp = rp[:i]
+		}
+		seen = append(seen, seenReq{req.Method, req.URL.Path, req.URL.RawQuery, string(b), req.Header.Clone(), rp})
 		cc := cacheable
+		age := originAge
 		mu.Unlock()
+		if age != "" {
+			w.Header().Set("Age", age)
+		}
 		h := w.Header()
 		h.Set("Etag", originETag)
 		h.Set("Content-Type", "image/png")
@@ -118,12 +129,20 @@ func suiteProxy(r *rng, n int) {
 		mu.Lock()
 		cacheable = cr.chance(70)
 		cc := cacheable
+		originAge = cr.pick([]string{"", "", "7", "31"})
+		oAge := originAge
 		mu.Unlock()
 		cache.ResetDispatchers(nil)
 		cache.ResetDispatchers([]config.CacheConfig{{Name: "c1", Size: 100, HitForPass: "300s"}})
 		upstream.Reset([]config.UpstreamConfig{{Name: "u1", AcceptEncoding: upAE, Servers: []config.UpstreamServerConfig{{Addr: origin.URL}}}})
 		waitUpstreamHealthy("u1")
-		location.Reset([]config.LocationConfig{lc})
+		// the location under test is neither the only nor the first location of the configuration: what is configured
+		// for the others (headers, query parameters, rewrites) must not show on its requests
+		location.Reset([]config.LocationConfig{
+			{Name: "l0", Upstream: "u1", Prefixes: []string{"/never-requested"}, QueryStrings: []string{"tok:secret0"}, ReqHeaders: []string{"X-L0:zero"}, RespHeaders: []string{"X-L0-Resp:zero"}, Rewrites: []string{"/api/*:/l0/$1"}},
+			lc,
+			{Name: "l2", Upstream: "u1", Prefixes: []string{"/never-requested-either"}, QueryStrings: []string{"tok:secret2", "k:other"}, ReqHeaders: []string{"X-L2:two"}},
+		})
 		s := server.NewServer(server.ServerOption{Addr: ":0", Locations: []string{"l1"}, Cache: "c1", CompressMinLength: 1 << 20})
 		e := elton.New()
 		e.Use(middleware.NewDefaultError())
@@ -133,14 +152,17 @@ func suiteProxy(r *rng, n int) {
 		e.Use(server.NewProxy(s))
 		e.ALL("/*", func(c *elton.Context) error { return nil })
 		p := &pipeline{e: e}
-		// the location's query as url.Values.Encode renders it (keys sorted)
-		lq := ""
-		if l := location.Get("p.test", "/", "l1"); l != nil {
-			lq = l.Query.Encode()
+		// the location's query as url.Values.Encode renders it (keys sorted), computed here from the configured pairs
+		lqv := url.Values{}
+		for _, kv := range qs {
+			if j := strings.IndexByte(kv, ':'); j > 0 {
+				lqv.Add(kv[:j], kv[j+1:])
+			}
 		}
-		emit("proxy", "case", itoa(int64(i)), encList(rewrites), encList(reqH), encList(respH), hx(lq), hx(upAE), b2s(cc))
+		lq := lqv.Encode()
+		emit("proxy", "case", itoa(int64(i)), encList(rewrites), encList(reqH), encList(respH), hx(lq), hx(upAE), b2s(cc), hx(oAge))
 		path := cr.pick([]string{"/api/users/1", "/old", "/plain/x", "/api/a b", "/api/", "/rest/v1/user/42", "/rest/a/user/b/user/c",
-			"/rest//user/", "/rest/v1/xy/z", "/rest/v 1/user/4 2", "/api/rest/q/user/7"})
+			"/rest//user/", "/rest/v1/xy/z", "/rest/v 1/user/4 2", "/api/rest/q/user/7", "/files/a%2Fb", "/plain/x%3By/c%2fd", "/plain/50%25"})
 		rawQ := cr.pick([]string{"", "", "b=2&a=1", "flag", "q=a%20b&q=c", "z=&y", "x=1&x=2&k=old"})
 		for reqNo := 0; reqNo < 2; reqNo++ {
 			method := "GET"
@@ -193,13 +215,14 @@ func suiteProxy(r *rng, n int) {
 			mu.Unlock()
 			up := "-"
 			if len(sn) == 1 {
-				up = hx(sn[0].method) + "|" + hx(sn[0].path) + "|" + hx(sn[0].rawQuery) + "|" + hx(sn[0].body) + "|" + hxHeader(sn[0].header)
+				up = hx(sn[0].method) + "|" + hx(sn[0].path) + "|" + hx(sn[0].rawQuery) + "|" + hx(sn[0].body) + "|" + hxHeader(sn[0].header) + "|" + hx(sn[0].rawPath)
 			} else if len(sn) > 1 {
 				up = "multiple"
 			}
-			emit("proxy", "req", itoa(int64(reqNo)), hx(method), hx(path), hx(rawQ), hxHeader(orig), hxb(body), "=>",
+			decPath, _ := url.PathUnescape(strings.ReplaceAll(path, " ", "%20"))
+			emit("proxy", "req", itoa(int64(reqNo)), hx(method), hx(decPath), hx(rawQ), hxHeader(orig), hxb(body), "=>",
 				up, itoa(int64(w.Code)), hx(w.Header().Get("X-Status")), hxHeader(w.Header()), hxb(w.Body.Bytes()), hxHeader(req.Header),
-				hx(req.URL.Path), hx(req.URL.RawQuery))
+				hx(req.URL.Path), hx(req.URL.RawQuery), hx(strings.ReplaceAll(path, " ", "%20")))
 			stat("req-" + method)
 		}
 	}
